@@ -207,7 +207,7 @@ impl TraversalMut for DfsEdge {
     fn new<N, const K: usize>(tree: &Tree<N, K>, root: TreeIndex) -> DfsEdge {
         let mut stack = Vec::with_capacity(K);
         let mut last_push = 0;
-        for ed in tree.children(tree.get_root_idx()).rev() {
+        for ed in tree.children(root).rev() {
             stack.push((1, root, ed.label, ed.target_idx));
             last_push += 1;
         }
